@@ -134,7 +134,10 @@ func ResponseEncoder(ctx context.Context, w http.ResponseWriter) Encoder {
 		if ct != "" {
 			// If content type explicitly set in the DSL, infer the response encoder
 			// from the content type context key.
-			if mt, _, err = mime.ParseMediaType(ct); err == nil {
+			if mt, _, err = mime.ParseMediaType(ct); err != nil {
+				// not a valid media type: default to JSON
+				enc, mt = json.NewEncoder(w), "application/json"
+			} else {
 				switch {
 				case mt == "application/json" || strings.HasSuffix(mt, "+json"):
 					enc = json.NewEncoder(w)
